@@ -59,9 +59,11 @@ func (k Keeper) SendNftTransfer(
 		if err != nil {
 			return err
 		}
-	} else if strings.HasPrefix(class, CLASSPATHPREFIX) && strings.Contains(class, DELIMITER) {
-		// a native class whose id looks like a voucher class path (nft/{chain}/{chain}/{class}) would be
-		// taken for a voucher on its way back and could release another asset's escrow
+	} else if strings.Contains(class, DELIMITER) {
+		// The class path grammar nft/{chain}/.../{class} cannot represent a base class that itself contains the
+		// delimiter: a native class of the form nft/{chain}/{chain}/{class} would be taken for a voucher on its
+		// way back and could release another asset's escrow, and any other native class containing the delimiter
+		// is split in the wrong place when it is refunded or returned, which leaves the token locked for good.
 		return errorsmod.Wrapf(types.ErrInvalidDenom, "native class %s has the form of a class path", class)
 	}
 
